@@ -534,8 +534,30 @@ func (c *Ctx) binBV(op Op, a, b *Term) *Term {
 }
 
 func (c *Ctx) Add(a, b *Term) *Term  { return c.binBV(OpAdd, a, b) }
-func (c *Ctx) Sub(a, b *Term) *Term  { return c.binBV(OpSub, a, b) }
-func (c *Ctx) Mul(a, b *Term) *Term  { return c.binBV(OpMul, a, b) }
+func (c *Ctx) Sub(a, b *Term) *Term {
+	if a.IsConst() && a.S.W <= 64 && a.Val&maskW(a.S.W) == 0 && !b.IsConst() {
+		return c.Neg(b) // 0 - x: the same canonical negation as x * -1
+	}
+	return c.binBV(OpSub, a, b)
+}
+func (c *Ctx) Mul(a, b *Term) *Term {
+	// x * -1 and -1 * x are written as (bvneg x): one canonical form for "the negation", so that `v *= -1` in the
+	// code and `-v` in an oracle are the same term
+	if b.IsConst() && b.S.W <= 64 && !a.IsConst() && b.Val&maskW(b.S.W) == maskW(b.S.W) {
+		return c.Neg(a)
+	}
+	if a.IsConst() && a.S.W <= 64 && !b.IsConst() && a.Val&maskW(a.S.W) == maskW(a.S.W) {
+		return c.Neg(b)
+	}
+	return c.binBV(OpMul, a, b)
+}
+
+func maskW(w int) uint64 {
+	if w >= 64 {
+		return ^uint64(0)
+	}
+	return (uint64(1) << uint(w)) - 1
+}
 func (c *Ctx) UDiv(a, b *Term) *Term { return c.binBV(OpUDiv, a, b) }
 func (c *Ctx) URem(a, b *Term) *Term { return c.binBV(OpURem, a, b) }
 func (c *Ctx) SDiv(a, b *Term) *Term { return c.binBV(OpSDiv, a, b) }
@@ -557,6 +579,9 @@ func (c *Ctx) BNot(a *Term) *Term {
 func (c *Ctx) Neg(a *Term) *Term {
 	if a.IsConst() && a.S.W <= 64 {
 		return c.BV(a.S.W, -a.Val)
+	}
+	if a.Op == OpNeg {
+		return a.Args[0]
 	}
 	return c.mk(OpNeg, a.S, []*Term{a}, 0, 0, 0, "")
 }
